@@ -403,7 +403,17 @@ impl Visitor<Diagnostic> for RuleGraphReferenceableElements {
                     }
                     InitialValueAssignmentKind::Subrange(_) => {}
                     InitialValueAssignmentKind::Structure(_) => {}
-                    InitialValueAssignmentKind::Array(_) => {}
+                    InitialValueAssignmentKind::Array(array) => {
+                        // The elements of the array may be function block instances
+                        // (or of a type that contains the declaration being visited)
+                        let element_type = match &array.spec {
+                            ArraySpecificationKind::Type(element_type) => element_type,
+                            ArraySpecificationKind::Subranges(subranges) => &subranges.type_name,
+                        };
+                        let from = self.declarations.add_node(from);
+                        let to = self.declarations.add_node(&element_type.name);
+                        self.declarations.graph.add_edge(from, to, ());
+                    }
                     InitialValueAssignmentKind::LateResolvedType(lrt) => {
                         // We nly care about these because these may be references to a function block
                         let from = self.declarations.add_node(from);
